@@ -15,6 +15,15 @@
 (*   Copy       SuRecord.Copy       (values, dependents and invalid copied;  *)
 (*                                   observers are not)                      *)
 (*   Observe    SuRecord.Observer                                            *)
+(*   Reload     SuRecord.ToRecord + SuRecordFromRow (only with DB = TRUE):   *)
+(*              the record is saved as a database row (ToRecord evaluates    *)
+(*              every missing/invalid field, the learnt dependencies go into *)
+(*              the <field>_deps columns) and a second record is made from   *)
+(*              that row.  Such a record has NO dependents map yet (lazy):   *)
+(*              SuRecord.ensureDeps builds it from the stored _deps columns  *)
+(*              of the row the first time an operation needs it (Put,        *)
+(*              Delete, Invalidate, Copy, a rule evaluation).  Delete drops  *)
+(*              the row, so it has to load the dependents BEFORE that.       *)
 (* Rules are the fixed pure functions                                        *)
 (*   c = a + b        d = c * 2        e = (a is 0) ? d : b                  *)
 (*   and optionally g = a + 1, h = a + 2, k = a + 3 (constant Extra)         *)
@@ -32,7 +41,8 @@ CONSTANTS
     Vals,       \* values that Set may store, e.g. 0..2
     Extra,      \* additional rule fields, subset of {"g", "h", "k"}: g = a + 1, h = a + 2, k = a + 3
                 \* (many rules reading the same field: long dependents lists)
-    Dev         \* "none" | "notransitive" | "copyshare" | "nodep"  (self-test deviations)
+    DB,         \* BOOLEAN: records can be saved to / loaded from database rows (action Reload)
+    Dev         \* "none" | "notransitive" | "copyshare" | "nodep" | "latedeps"  (self-test deviations)
 
 EMPTY == -1                          \* the empty string (record default value)
 Plain == {"a", "b"}
@@ -51,11 +61,18 @@ VARIABLES
 vars == <<recs, obs, link, out>>
 
 NoRec == [none |-> TRUE]
+NoDeps == [f \in Fields |-> {}]
 EmptyRec == [has  |-> {},                               \* members present
              val  |-> [f \in Fields |-> 0],             \* their values
              inv  |-> {},                               \* SuRecord.invalid
-             deps |-> [f \in Fields |-> {}],            \* SuRecord.dependents: deps[to] = {from...}
-             src  |-> [f \in Fields |-> "set"]]         \* did val[f] come from Set or from the rule
+             deps |-> NoDeps,                           \* SuRecord.dependents: deps[to] = {from...}
+             src  |-> [f \in Fields |-> "set"],         \* did val[f] come from Set or from the rule
+             lazy |-> FALSE,                            \* SuRecord.dependents == nil: not built yet
+             sdeps |-> NoDeps]                          \* dependencies stored in the _deps columns of
+                                                        \* SuRecord.row (only meaningful while lazy)
+
+\* SuRecord.ensureDeps: build the dependents map from the row the first time it is needed
+EnsureDeps(s) == IF s.lazy THEN [s EXCEPT !.deps = s.sdeps, !.lazy = FALSE, !.sdeps = NoDeps] ELSE s
 
 Exists(r) == recs[r] # NoRec
 
@@ -65,7 +82,7 @@ Exists(r) == recs[r] # NoRec
 
 AddDep(s, from, to) ==
     IF from = "" \/ from = to THEN s
-    ELSE [s EXCEPT !.deps[to] = @ \cup {from}]
+    ELSE [EnsureDeps(s) EXCEPT !.deps[to] = @ \cup {from}]
 
 RECURSIVE GetOp(_, _, _), RunRule(_, _)
 
@@ -77,7 +94,7 @@ GetOp(s, f, from) ==
          LET s2 == [s1 EXCEPT !.inv = @ \ {f}] IN
          IF f \notin RuleFields
          THEN [s |-> s2, v |-> IF f \in s2.has THEN s2.val[f] ELSE EMPTY]
-         ELSE LET r == RunRule(s2, f) IN
+         ELSE LET r == RunRule(EnsureDeps(s2), f) IN
               [s |-> [r.s EXCEPT !.has = @ \cup {f}, !.val[f] = r.v, !.src[f] = "rule"],
                v |-> r.v]
 
@@ -130,7 +147,7 @@ Store(r, s) ==
 
 Set(r, f, v) ==
     /\ Exists(r)
-    /\ LET s == recs[r]
+    /\ LET s == EnsureDeps(recs[r])
            same == f \in s.has /\ s.val[f] = v
            s1 == [s EXCEPT !.inv = @ \ {f}, !.has = @ \cup {f}, !.val[f] = v, !.src[f] = "set"]
            newly == IF same THEN {} ELSE NewlyFrom(s1, f)
@@ -149,7 +166,10 @@ Get(r, f) ==
 
 Delete(r, f) ==
     /\ Exists(r)
-    /\ LET s == recs[r]
+    /\ LET \* ensureDeps comes first: the row (and its _deps columns) is dropped by delete;
+           \* deviation "latedeps": the row is dropped before the dependents were built from it
+           s == IF Dev = "latedeps" THEN EnsureDeps([recs[r] EXCEPT !.sdeps = NoDeps])
+                ELSE EnsureDeps(recs[r])
            had == f \in s.has
            s1 == [s EXCEPT !.has = @ \ {f}, !.val[f] = 0, !.src[f] = "set"]
            newly == IF had THEN NewlyFrom(s1, f) ELSE {}
@@ -161,7 +181,7 @@ Delete(r, f) ==
 
 Invalidate(r, f) ==
     /\ Exists(r)
-    /\ LET s == recs[r]
+    /\ LET s == EnsureDeps(recs[r])
            newly == IF f \in s.inv THEN {}
                     ELSE {f} \cup Reach([s EXCEPT !.inv = @ \cup {f}], {f}, {})
            s2 == [s EXCEPT !.inv = @ \cup newly]
@@ -171,10 +191,35 @@ Invalidate(r, f) ==
 
 Copy(r, q) ==
     /\ Exists(r) /\ r # q
-    /\ recs' = [recs EXCEPT ![q] = recs[r]]
+    /\ recs' = [recs EXCEPT ![r] = EnsureDeps(recs[r]), ![q] = EnsureDeps(recs[r])]   \* copyDeps
     /\ obs' = [obs EXCEPT ![q] = {}]
     /\ link' = (link \/ Dev = "copyshare")
     /\ out' = Out("Copy", r, "", 0, q, 0, 0, {})
+
+\* ToRecord(hdr): ensureDeps, then every field of the header in order is brought up to date
+\* (SuRecord.deps: missing or invalid => callRule), then the values and the inverted
+\* dependents (the <field>_deps columns) are written to the row.
+FieldOrder == <<"a", "b", "c", "d", "e", "g", "h", "k">>
+RECURSIVE SaveFrom(_, _)
+SaveFrom(s, i) ==
+    IF i > Len(FieldOrder) THEN s
+    ELSE IF FieldOrder[i] \in Fields THEN SaveFrom(GetOp(s, FieldOrder[i], "").s, i + 1)
+    ELSE SaveFrom(s, i + 1)
+SaveOp(s) == SaveFrom(EnsureDeps(s), 1)
+
+\* q := SuRecordFromRow(r.ToRecord(hdr)): the values of the row (a stored rule value is a valid
+\* cached rule value, a stored Set value a field value), nothing invalid, no observers, and the
+\* dependents still to be built from the row
+Reload(r, q) ==
+    /\ DB /\ Exists(r) /\ r # q
+    /\ LET s1 == SaveOp(recs[r])
+           \* an empty value ("", e.g. computed by rule e) is stored as nothing: not a member of q
+           new == [has |-> {f \in s1.has : s1.val[f] # EMPTY}, val |-> s1.val, inv |-> {}, deps |-> NoDeps, src |-> s1.src,
+                   lazy |-> TRUE, sdeps |-> s1.deps]
+       IN recs' = [recs EXCEPT ![r] = s1, ![q] = new]
+    /\ obs' = [obs EXCEPT ![q] = {}]
+    /\ out' = Out("Reload", r, "", 0, q, 0, 0, {})
+    /\ UNCHANGED link
 
 Observe(r, o) ==
     /\ Exists(r) /\ o \notin obs[r]
@@ -187,7 +232,7 @@ Next == \E r \in Recs :
                                 \/ Get(r, f)
                                 \/ Delete(r, f)
                                 \/ Invalidate(r, f)
-           \/ \E q \in Recs : Copy(r, q)
+           \/ \E q \in Recs : Copy(r, q) \/ Reload(r, q)
            \/ \E o \in Obs : Observe(r, o)
 
 Spec == Init /\ [][Next]_vars
